@@ -6,17 +6,11 @@ import TaRs.Lemmas.Core.Maximum
 import TaRs.Gen.Maximum
 import TaRs.Lemmas.RsLemmas
 import TaRs.Lemmas.Total.Maximum
+import TaRs.Lemmas.Bar.Maximum
 namespace TaRs.Gen.Maximum
 open TaRs TaRs.Rs
 
 variable {F : Type} [Scalar F]
-
-/-- wiring of the bar path: WHICH field of the bar `next(&bar)` reads (a value-level fact, hence
-    here and not among the value-agnostic totality lemmas) -/
-theorem nextBar_eq (s : Maximum F) (b : Bar F) : s.nextBar b = s.next b.high := by
-  unfold nextBar
-  try simp only [gen_helper]
-  cases s.next b.high <;> rfl
 
 /-- `find_max_index` only looks at the buffer: first index holding a value `>` every earlier
     candidate (and `> −∞`), `0` when there is none -/
